@@ -4,6 +4,7 @@ import (
 	"fmt"
 	"math"
 	"os"
+	"sort"
 	"strings"
 	"time"
 
@@ -311,6 +312,30 @@ func init() {
 					}
 				})
 			})
+			// how a registered function names its package x how often it is used (0, 1, 2, 3 times) x both modes
+			for _, ff := range []struct {
+				id, fn string
+				local  bool
+			}{{"alias", "pk.FnStr", false}, {"alias-subpath", "fxroot/pk2.FnInt", false}, {"quoted", `"fx/pk".FnStr`, false}, {"unquoted-path", "fx/pk2.FnStr", false},
+				{"dotted-path", "fx/p-k.g.FnStr", false}, {"quoted-dotted-path", `"fx/p-k.g".FnInt`, false}, {"local-dot", `".".FnStr`, true}, {"local-bare", "FnInt", true}} {
+				for uses := 0; uses <= 3; uses++ {
+					for stub := 0; stub < 2; stub++ {
+						ff, uses, stub := ff, uses, stub
+						id := fmt.Sprintf("function-form/%s/uses=%d/stub=%d", ff.id, uses, stub)
+						w.Case(id, func(c *C) {
+							cfg := &Cfg{Meta: &Meta{Pkg: P("gen"), Imports: []KV{{"pk", "fx/pk"}, {"fxroot", "fx"}}, Functions: []KV{{"fut", ff.fn}, {"other", "pk.FnNil"}}}}
+							for u := 0; u < uses; u++ {
+								cfg.Params = append(cfg.Params, Param{fmt.Sprintf("p%d", u), fmt.Sprintf(`%%fut(%d)%%-%%other()%%`, u)})
+							}
+							cfg.Services = []Service{{Name: "s", Constructor: P("pk.New"), Args: []any{`%fut("in a service")%`}}}
+							if uses == 0 {
+								cfg.Services[0].Args = nil
+							}
+							evalCfg(c, id, cfg, []File{{"c.yaml", cfg.YAML()}}, ff.local, stub == 1)
+						})
+					}
+				}
+			}
 			// more distinct import paths than one hexadecimal digit numbers (both modes)
 			for mi, cfg := range manyImportsCfgs() {
 				for stub := 0; stub < 2; stub++ {
@@ -367,6 +392,26 @@ func init() {
 				"rootGontainer", "interface_", "nilContainer", "implements", "interfaceType", "dependencyService", "dependencyValue", "dependencyTag", "dependencyProvider",
 				"newService", "concatenateChunks", "paramTodo", "getEnv", "getEnvInt", "getParam", "callProvider",
 				"_getEnv", "_getEnvInt", "_paramTodo", "_concatenateChunks", "_callProvider", "_", "Gontainer", "NewGontainer", "init", "main", "Container", "New", "gen", "Root", "i0_fmt", "i1_pk", "fmt", "os", "errors", "strconv", "context", "reflect"}
+			// ... and every name the embedded runtime container already has (methods and fields, read from its export data),
+			// with the Must / InContext spellings the generator derives from a getter
+			{
+				m0, f0, _ := w.TC(false).ContainerMethods()
+				var api []string
+				for m := range m0 {
+					api = append(api, m)
+				}
+				api = append(api, f0...)
+				sort.Strings(api)
+				for _, m := range api {
+					stress = append(stress, m)
+					if strings.HasPrefix(m, "Must") {
+						stress = append(stress, strings.TrimPrefix(m, "Must"))
+					}
+					if strings.HasSuffix(m, "InContext") {
+						stress = append(stress, strings.TrimSuffix(m, "InContext"))
+					}
+				}
+			}
 			idPositions := []struct {
 				id  string
 				set func(c *Cfg, x string)
